@@ -2,6 +2,7 @@ import DoviModel.Model.Av1
 import DoviModel.Proofs.Bits
 import DoviModel.Proofs.Av1Proof
 import DoviModel.Props.C03
+import DoviModel.Gen.SourceRules
 /-!
 # C15 — AV1 ITU-T T.35 wrapping round-trips every RPU of every size
 -/
@@ -357,5 +358,10 @@ example : ∃ bytes o crc, writeRpu C03.exRpu = .ok bytes ∧ wrap bytes = .ok o
     exact ⟨bytes, o, crc, rfl, h1, h2⟩
   | error => rw [hw] at hsz; cases hsz
   | panic => rw [hw] at hsz; cases hsz
+
+
+/-- **source tie**: `ITU_T35_DOVI_RPU_PAYLOAD_HEADER` of av1/mod.rs as it stands in the source now is the header the
+model checks and emits -/
+theorem source_t35_header_agrees : Src.ituT35Header = Av1.headerBytes.map (·.toNat) := by decide
 
 end Dovi.C15
